@@ -113,6 +113,10 @@ def w_schedule(case):
     direct = case['route'] == 'direct'
     dosed = case['dosed']
     m.set_administration(dosed, amount_var=amount, direct=direct)
+    if case.get('via') == 'reduced':
+        # the regimen is given to the parameter-fixing wrapper (nothing fixed); the
+        # wrapper is what is simulated and asked for its regimen
+        m = chi.ReducedMechanisticModel(m)
     apply_regimen(m, case['reg'])
     ntr = 3
     lab = '%s/%s/%s %s' % (case['model'], dosed, case['route'], case['reg'])
@@ -207,6 +211,10 @@ def w_table(case):
     m = chi.library.ModelLibrary().one_compartment_pk_model()
     m.set_administration('central', direct=case['route'] == 'direct')
     pm = chi.PredictiveModel(m, [chi.GaussianErrorModel()])
+    if case.get('fixed_first'):
+        # with a fixed parameter the predictive model holds a reduced mechanistic
+        # model, which forwards the regimen
+        pm.fix_parameters({'central.size': 1.2})
     reg = case['reg']
     kw = {'dose': reg['dose'], 'start': reg['start'], 'duration': reg['duration']}
     if reg['period'] is not None:
@@ -491,6 +499,12 @@ def build(tier, seed):
                     c['sens_seq'] = ['none', 'on_on', 'on_subset', 'on_off',
                                      'off_on'][i % 5]
                     sched.append(c)
+                    if reg.get('kind') == 'regimen' and (
+                            tier == 'thorough' or i % 2 == 0):
+                        c2 = dict(c)
+                        c2['via'] = 'reduced'
+                        c2['sens_seq'] = 'none'
+                        sched.append(c2)
                 i += 1
     finals = [None, 0.3, 1.0, 2.0, 2.5, 5.0]
     table = []
@@ -499,6 +513,8 @@ def build(tier, seed):
         if reg['period']:
             ft += [reg['start'] + reg['period'], reg['start'] + 2 * reg['period']]
         table.append({'reg': reg, 'route': 'direct', 'final_times': ft})
+        table.append({'reg': reg, 'route': 'direct', 'final_times': ft,
+                      'fixed_first': True})
     wrapped = []
     wregs = regimens('thorough')
     if tier == 'quick':
@@ -507,7 +523,8 @@ def build(tier, seed):
         for reg in wregs:
             ft = [None, 1.0, 2.5, reg['start'], reg['start'] + reg['duration']]
             wrapped.append({'kind': kind, 'reg': reg, 'final_times': ft,
-                            'times': [0.4, 1.3, 2.2, 3.1]})
+                            'times': [[0.4, 1.3, 2.2, 3.1], [2.2, 0.4, 3.1, 1.3],
+                                      [3.1, 2.2, 1.3, 0.4]][len(wrapped) % 3]})
     # dose tables: 0-2 dose rows per individual, with / without duration column
     data = []
     row_opts = [[], [(0.0, 2.0, 0.5)], [(1.0, 3.0, None)],
